@@ -210,10 +210,15 @@ def targeted(ctx):
         ctx.violation("failing-input", v["class"], {**v, "broken": f"tie:targeted:{key}"})
 
 
+def wide_stream(ctx):
+    streams.wide_corr(ctx, ENTS)
+
+
 def run(ctx):
     streams.hist_corr(ctx, ents=ENTS, nhist=ctx.n(8, 100))
     streams.fn_corr(ctx, ents=ENTS, ncases=ctx.n(45, 600), sizes=(1, 2, 3, 5, 8, 13, 40, 60) if ctx.quick else (1, 2, 3, 5, 8, 13, 40, 60, 200))
     streams.presentation_variants(ctx, fn_ents=ENTS, hist_ents=ENTS)
+    wide_stream(ctx)
     targeted(ctx)
     fine_grid(ctx)
     exhaustive(ctx)
